@@ -121,7 +121,22 @@ func (env *Env) callExpr(c *ast.CallExpr) Value {
 		}
 		return Value{T: tString, S: v.S}
 	case "bytes":
-		return Value{T: tString, S: env.x.bytesStr(env.s, env.hp, arg(0))}
+		v := arg(0)
+		if pt, ok := v.T.Underlying().(*types.Pointer); ok {
+			// pointer to a byte array: the whole array
+			if at, ok := pt.Elem().Underlying().(*types.Array); ok && v.LV == nil {
+				v = sliceVal(types.NewSlice(at.Elem()), v.S, "0", fmt.Sprintf("%d", at.Len()))
+			} else if ok && kindOf(at) == kArray {
+				// an array embedded in an object: its value is one array-sorted leaf
+				arr := env.s.loadFrom(env.hp, v)
+				env.x.declareFun("bytes_str", []string{arrSort(sInt, sInt), sInt, sInt}, sStr)
+				n := fmt.Sprintf("%d", at.Len())
+				t := app("bytes_str", arr.S, "0", n)
+				env.s.assume(eq(app("str.len", t), n))
+				return Value{T: tString, S: t}
+			}
+		}
+		return Value{T: tString, S: env.x.bytesStr(env.s, env.hp, v)}
 	case "visited":
 		vis := env.loopVisited()
 		if vis == "" {
